@@ -1,6 +1,9 @@
 package bloomsearch
 
-import "context"
+import (
+	"context"
+	"io"
+)
 
 // ---------------------------------------------------------------------------------------------
 // C17 — every written file describes itself truthfully; C18 — indexes cover their data;
@@ -255,3 +258,79 @@ func H_C17_merged_file_describes_itself() { vpMergedFileBody() }
 //vp:override (*bs.BloomSearchEngine).mergeDataBlocks=vpMergeRec
 //vp:bounds 3 blocks (4 in thorough) of one partition, symbolic rows/sizes in [0,2^40), symbolic limits in (0,2^40), 4 key sets per block
 func H_C11_block_grouping_writes_every_source_block_once() { H_C12_block_grouping_respects_limits() }
+
+// A flush that runs while a merge is between two of its output blocks: both files must still
+// describe themselves (the flush worker and Merge run concurrently in the engine; nothing they
+// write through may be shared between them).
+type vpGatedWriter struct {
+	vpImgWriter
+	writes int
+	gate   chan struct{}
+	parked chan struct{}
+}
+
+func (f *vpGatedWriter) Write(p []byte) (int, error) {
+	f.writes++
+	if f.writes == 2 && f.gate != nil {
+		close(f.parked)
+		<-f.gate
+	}
+	return f.vpImgWriter.Write(p)
+}
+
+type vpGatedStore struct {
+	vpImgStore
+	gateNext bool
+	gate     chan struct{}
+	parked   chan struct{}
+}
+
+func (s *vpGatedStore) CreateFile(ctx context.Context) (io.WriteCloser, []byte, error) {
+	id := s.nCreated
+	s.nCreated++
+	w := &vpGatedWriter{vpImgWriter: vpImgWriter{s: &s.vpImgStore, id: id}}
+	if s.gateNext {
+		s.gateNext = false
+		w.gate, w.parked = s.gate, s.parked
+	}
+	return w, vpPointer(id), nil
+}
+
+//vp:override (*bs.bloomEntrySets).indexRow=vpIndexRowRec
+//vp:override (*bs.bloomEntrySets).buildFilters=vpBuildFiltersRec
+//vp:override bs.encodeFilterSection=vpEncodeSectionConst
+//vp:override bs.parseFilterSection=vpParseSectionOK
+//vp:maxsteps 900000
+//vp:bounds two flushed two-partition files, the real Merge in a goroutine parked inside the second Write of its output (between two output blocks), a third flush running to completion meanwhile, then the merge released; all files read back
+func H_C17_flush_during_a_merge_keeps_both_files_truthful() {
+	iw := vpNewImgWorld()
+	gs := &vpGatedStore{vpImgStore: *iw.store, gate: make(chan struct{}), parked: make(chan struct{})}
+	iw.b.dataStore = gs
+	iw.store = &gs.vpImgStore
+	ra := []vpRowSpec{{id: "a0", part: "p"}, {id: "a1", part: "q"}}
+	rb := []vpRowSpec{{id: "b0", part: "p"}, {id: "b1", part: "q"}}
+	rc := []vpRowSpec{{id: "c0", part: "p"}, {id: "c1", part: "q"}}
+	iw.flushRows(ra)
+	iw.flushRows(rb)
+	gs.gateNext = true // the merge's output writer parks in its second Write
+	mergeErr := make(chan error, 1)
+	go func() {
+		_, err := iw.b.Merge(context.Background())
+		mergeErr <- err
+	}()
+	<-gs.parked
+	vpBuildCalls, vpIndexCalls = nil, nil
+	idc := iw.flushRows(rc) // a complete flush while the merge is between two of its blocks
+	close(gs.gate)
+	vpAssert(<-mergeErr == nil, "C13: a fault-free merge failed")
+	iw.checkFileDescribesItself(idc)
+	for i := range iw.meta.files {
+		id := vpFileID(iw.meta.files[i].PointerBytes)
+		iw.checkFileDescribesItself(id)
+		md := &iw.meta.files[i].Metadata
+		for j := range md.DataBlocks {
+			iw.readBlockRows(id, &md.DataBlocks[j])
+		}
+	}
+	vpAssert(len(iw.meta.files) == 2, "C13: after the merge and the concurrent flush the MetaStore does not reference the merged file and the new file")
+}
